@@ -259,6 +259,65 @@ theorem detrend_trend_is_function_of_label (reg : Reg) (s : Det) :
             · simp only [Prod.mk.injEq, Out.ser.injEq] at h
               exact h.2.symm
 
+/-
+FULL STATEMENT: an `update(update_params=False)` that succeeds re-estimates nothing, so it changes no
+later transform / inverse_transform result of the detrender (hence a stretch detrended before it is
+restored exactly after it).
+
+FALSE for the code as it stands (`detrend_update_earlier_batch_moves_trend` below):
+`PolynomialTrendForecaster._predict` reads the origin of the regression axis from the CURRENT
+`_y.index[0]`, and `update` puts an earlier batch in front of `_y`.  Proved under the excluding
+hypothesis that no point of the batch lies before the first remembered time point.
+-/
+theorem detrend_update_without_refit_keeps_trend_partial (reg : Reg) (s s' : Det) (fc : Fc) (o : Int × Val)
+    (z : Series) (hfc : s.fc = some fc) (ho : fc.y.head? = some o) (hlate : ∀ p ∈ z, o.1 ≤ p.1)
+    (hupd : detUpdate s (.series z) false = (s', .ok)) (inv : Bool) (inp : Input) :
+    (detApply reg s' inv inp).2 = (detApply reg s inv inp).2 := by
+  unfold detUpdate at hupd
+  by_cases hf : s.fitted = true
+  · simp only [hf, Bool.not_true, Bool.false_eq_true, ↓reduceIte] at hupd
+    cases hcs : checkSeries true (.series z) with
+    | error e => simp [hcs] at hupd
+    | ok z' =>
+      have hz' := checkSeries_series_ok true z z' hcs
+      subst hz'
+      simp only [hcs, hfc, Bool.not_false, ↓reduceIte, Prod.mk.injEq, and_true] at hupd
+      subst hupd
+      obtain ⟨o', ho', hlab⟩ : ∃ o', (if z'.isEmpty = true then fc.y else combineFirst z' fc.y).head? = some o' ∧ o'.1 = o.1 := by
+        split
+        · exact ⟨o, ho, rfl⟩
+        · exact combineFirst_head z' fc.y o ho hlate
+      unfold detApply
+      simp only [hf, Bool.not_true, Bool.false_eq_true, ↓reduceIte, hfc]
+      cases checkSeries false inp with
+      | error e => rfl
+      | ok zz =>
+        simp only
+        split
+        · rfl
+        · simp only [ho, ho']
+          cases fc.train with
+          | none => rfl
+          | some tv =>
+            obtain ⟨ol, ov⟩ := o
+            obtain ⟨ol', ov'⟩ := o'
+            simp only at hlab
+            subst hlab
+            rfl
+  · simp [hf] at hupd
+
+/-- the detrender fitted on labels 3, 4 (values 14, 16: trend 14 + 2·(t − 3)) -/
+def witnessDet : Det := (detFit { degree := 1 } (.series [(3, some 14), (4, some 16)])).1
+
+/-- NEGATION of the full statement: `update(update_params=False)` with the single earlier observation
+at label -1 succeeds, nothing is re-estimated, and the trend removed at label 5 changes from 18 to 26. -/
+theorem detrend_update_earlier_batch_moves_trend :
+    (detApply polyReg witnessDet false (.series [(5, some (-30))])).2 = .ser [(5, some (-48))]
+    ∧ (detUpdate witnessDet (.series [(-1, some 30)]) false).2 = .ok
+    ∧ (detApply polyReg (detUpdate witnessDet (.series [(-1, some 30)]) false).1 false
+        (.series [(5, some (-30))])).2 = .ser [(5, some (-56))] := by
+  refine ⟨?_, ?_, ?_⟩ <;> decide +kernel
+
 -- =============================================================================================
 -- 4. Box-Cox / log / tabular adaptor around an uninterpreted library map
 
